@@ -373,6 +373,7 @@ func c15ZipCase(c *Cfg, base string, id int, r *Rng, ents []c15ZEnt, tag string)
 	} else {
 		c.Count("unzip/name-too-long-for-host (model op skipped, direct predicates kept)")
 	}
+	c15AgreeZip(c, obs, cf, cerr, s.target, uerr)
 	c.Trace()
 	c.Case("zip "+full, len(obs) >= 2)
 	c.Count(fmt.Sprintf("unzip/%s ok=%v files=%d", tag, uerr == nil, min(len(files), 3)))
@@ -629,6 +630,7 @@ func c15RoundTrip(c *Cfg, base string, id int, r *Rng, fsz []c15File) {
 	// Create sorts its input first (the order of entries in the archive is not part of the
 	// property): compare as sets by sorting both sides
 	c.Op("O", "create "+c15Uni(paths...)+" "+strings.Join(words, " "), ans)
+	c15CreateFullOp(c, fsz, ans)
 	c.Count(fmt.Sprintf("create/ok=%v", cerr == nil))
 	c.Case("create "+strings.Join(words, " "), cerr == nil && len(obs) >= 2)
 	if cerr != nil {
@@ -803,8 +805,11 @@ func c15DirCase(c *Cfg, base string, id int, r *Rng) {
 		made[full] = true
 	}
 	if r.Chance(1, 4) {
-		os.MkdirAll(filepath.Join(root, Pick(r, []string{".git", "sub/.hg", ".svn", "a/.bzr"})), 0o777)
+		vcs := filepath.Join(root, Pick(r, []string{".git", "sub/.hg", ".svn", "a/.bzr"}))
+		os.MkdirAll(vcs, 0o777)
 		os.WriteFile(filepath.Join(root, ".git", "config"), []byte("x"), 0o666)
+		// a regular file inside the VCS directory: not pruning it becomes observable
+		os.WriteFile(filepath.Join(vcs, "x.cue"), []byte("vcs"), 0o666)
 	}
 	// our own listing: regular files outside VCS directories, as (slash path, size)
 	var list []c15File
@@ -835,6 +840,7 @@ func c15DirCase(c *Cfg, base string, id int, r *Rng) {
 		return nil
 	})
 	dcf, _ := modzip.CheckDir(root)
+	c15DirOps(c, root, dcf)
 	lcf := c15CheckFilesOps(c, list)
 	rel := func(ps []string) []string {
 		out := make([]string, len(ps))
@@ -1071,4 +1077,7 @@ func runC15(c *Cfg) {
 	c15WitnessEmptyCueMod(c, base)
 	lap("directories")
 	c15EscapeCases(c, r.Sub())
+	c15EscapeExt(c, r.Sub())
+	c15WitnessDupOrder(c)
+	lap("escape")
 }
